@@ -57,3 +57,91 @@ def mod_form(t, param):
     if x['floors'] or y['floors'] or y['a'] != 0 or y['c'] <= 0:
         raise NotNormal('remainder of / by a non-linear form')
     return x['a'], x['c'], y['c']
+
+
+ARITH = ('Add', 'Sub', 'Mul')
+
+
+def affine_over(t):
+    """t = a*N + c with N the (single) maximal non-arithmetic sub-term -> (a, c, N)"""
+    atoms = []
+
+    def walk(x):
+        if x is None:
+            raise NotNormal('no term')
+        if x[0] == 'c':
+            if not isinstance(x[1], int):
+                raise NotNormal('float constant')
+            return (0, x[1])
+        if x[0] in ARITH and len(x) == 3:
+            a1, c1 = walk(x[1])
+            a2, c2 = walk(x[2])
+            if x[0] == 'Add':
+                return (a1 + a2, c1 + c2)
+            if x[0] == 'Sub':
+                return (a1 - a2, c1 - c2)
+            if a1 == 0:
+                return (c1 * a2, c1 * c2)
+            if a2 == 0:
+                return (a1 * c2, c1 * c2)
+            raise NotNormal('non-linear product')
+        if x[0] == 'trunc':
+            return walk(x[1])
+        if not atoms:
+            atoms.append(x)
+        elif atoms[0] != x:
+            raise NotNormal('two different non-arithmetic sub-terms')
+        return (1, 0)
+    a, c = walk(t)
+    if not atoms:
+        raise NotNormal('constant')
+    return a, c, atoms[0]
+
+
+def bit_form(t, width=16):
+    """term built from one atom with & | << >> by constants -> ({out bit: in bit}, atom).
+    Bits not in the map are 0.  Overlapping ORs of different sources raise NotNormal."""
+    atom = []
+
+    def walk(x):
+        op = x[0]
+        if op == 'c':
+            if x[1] != 0:
+                raise NotNormal('non-zero constant in a bit expression')
+            return {}
+        if op in ('BitAnd', 'BitOr', 'Shl', 'Shr') and len(x) == 3:
+            l, r = x[1], x[2]
+            if op == 'BitAnd':
+                if r[0] == 'c':
+                    m = walk(l)
+                    return {k: v for k, v in m.items() if (r[1] >> k) & 1}
+                if l[0] == 'c':
+                    m = walk(r)
+                    return {k: v for k, v in m.items() if (l[1] >> k) & 1}
+                raise NotNormal('and of two non-constants')
+            if op == 'BitOr':
+                a, b = walk(l), walk(r)
+                for k in a:
+                    if k in b and b[k] != a[k]:
+                        raise NotNormal('overlapping or')
+                a = dict(a)
+                a.update(b)
+                return a
+            if r[0] != 'c':
+                raise NotNormal('shift by a non-constant')
+            m = walk(l)
+            if op == 'Shl':
+                return {k + r[1]: v for k, v in m.items() if k + r[1] < width}
+            return {k - r[1]: v for k, v in m.items() if k - r[1] >= 0}
+        if op == 'trunc':
+            m = walk(x[1])
+            return {k: v for k, v in m.items() if k < x[2][1]}
+        if op in ARITH or op in ('Rem', 'Div', 'BitXor', 'Not'):
+            raise NotNormal('operator %s in a bit expression' % op)
+        if not atom:
+            atom.append(x)
+        elif atom[0] != x:
+            raise NotNormal('two atoms')
+        return {k: k for k in range(width)}
+    m = walk(t)
+    return m, (atom[0] if atom else None)
